@@ -2911,7 +2911,10 @@ class Parser:
 
         if self._match(TokenType.DEFAULT):
             if self._match_texts(self.PROPERTY_PARSERS):
-                return self.PROPERTY_PARSERS[self._prev.text.upper()](self, default=True)
+                try:
+                    return self.PROPERTY_PARSERS[self._prev.text.upper()](self, default=True)
+                except TypeError:
+                    self.raise_error(f"Cannot parse property '{self._prev.text}'")
 
             if self._match_text_seq("CHARACTER", "SET"):
                 return self._parse_character_set(default=True)
@@ -7408,7 +7411,10 @@ class Parser:
                 prop = self.PROPERTY_PARSERS[keyword](self)
             elif self._match(TokenType.DEFAULT) and self._match_texts(self.PROPERTY_PARSERS):
                 keyword = self._prev.text.upper()
-                prop = self.PROPERTY_PARSERS[keyword](self, default=True)
+                try:
+                    prop = self.PROPERTY_PARSERS[keyword](self, default=True)
+                except TypeError:
+                    prop = None
             else:
                 break
             if not prop:
